@@ -9,9 +9,13 @@ from .. import b2check, core, gen
 RECS = ["R-N500", "RX-A2A", "RX-A6A", "RX-A810", "RX-V1067", "RX-V2067", "RX-V473", "RX-V475", "RX-V500D", "RX-V583", "RX-V685", "TSR-700"]
 
 
+jobs_cache = []
+
+
 def jobs(rng, thorough):
     T = core.tables()
-    out = []
+    out = jobs_cache
+    del out[:]
     for _ in range(30000 if thorough else 400):
         out.append((gen.subunit_init(rng, T), rng.randrange(10 ** 9), rng.choice([0, 0, 3, 6])))
     return out
@@ -19,7 +23,17 @@ def jobs(rng, thorough):
 
 def run(ctx: core.Ctx):
     ctx.lean_stage(extra_props=("C06b",))
-    b2check.run_b2(ctx, jobs, ["C06"], label="subunit initialisation")
+    results = b2check.run_b2(ctx, jobs, ["C06", "L5run"], label="subunit initialisation")
+    # tie of the L5 dialogue model: every eligible run (one object, receiver = function of the command text) must be a run of the model
+    l5 = [r.get("l5") or {"l5": "SKIP", "why": "no verdict"} for r in results]
+    for v in l5:
+        ctx.count("l5:" + v["l5"] + (":" + str(v.get("why")) if v["l5"] == "SKIP" else ""))
+    ctx.cov["l5_runs_accepted_by_dialogue_model"] = sum(1 for v in l5 if v["l5"] == "ACCEPT")
+    rej = [(j, v) for j, v in zip(jobs_cache, l5) if v["l5"] == "REJECT"]
+    ctx.cov["l5_runs_rejected_by_dialogue_model"] = len(rej)
+    if rej and not ctx.violations:
+        (spec, seed, pre), v = rej[0]
+        ctx.correspondence_broken("L5 dialogue model: a real initialize() run is not a run of the model", {"count": len(rej), "first": {"spec": spec, "seed": seed, "preempt": pre, "verdict": v}})
     ctx.info["rule"] = ("23 classes x devices answering a random subset of functions with valid values, unsolicited reports, latencies 0..1 s, devices that never answer the sync query or fall silent; each under a seeded schedule, some with extra line-level preemptions; a case = one schedule; non-trivial = distinct (spec, seed)")
     return ctx.finish()
 
